@@ -245,3 +245,34 @@ package processors
 //@ property C09
 //@ assigns nothing
 //@ ensures [built] result != nil
+
+// ---- placeholders (C16): ${key} / ${key:default} is the configured value if present, else the default ---------------
+//   CfgPresent(v)  a configured value counts as present unless it is nil, an empty map or an empty list
+//   QKey(exp) / QHasDefault(exp) / QDefault(exp): the placeholder text split at its first ':'
+//@ spec func CfgPresent(v any) bool = v != nil && !(typeIs(v, map[string]any) && len(asType(v, map[string]any)) == 0) && !(typeIs(v, []any) && len(asType(v, []any)) == 0)
+//@ spec func QKey(exp string) string = ite(StrIndex(exp, ":") == -1, exp, substr(exp, 0, StrIndex(exp, ":")))
+//@ spec func QHasDefault(exp string) bool = StrIndex(exp, ":") != -1
+//@ spec func QDefault(exp string) string = substr(exp, StrIndex(exp, ":") + 1, len(exp))
+
+//@ func (*configQuoteAwarePostProcessors).PostProcessProperties$1
+//@ property C16
+//@ requires [wired] c != nil && c.Configure != nil && prop != nil && prop.Configurations != nil
+//@ assigns mapcontents(prop.Configurations)
+//@ ensures [configured-value-wins] implies(old(CfgPresent(CfgGet(QKey(exp)))) && result1 == nil, result0 == FmtAny(CfgGet(QKey(exp))))
+//@ ensures [default-otherwise] implies(!old(CfgPresent(CfgGet(QKey(exp)))) && QHasDefault(exp) && QDefault(exp) != "" && result1 == nil, result0 == ite(ParsedAny(QDefault(exp)) == nil, "", FmtAny(ParsedAny(QDefault(exp)))))
+//@ ensures [absent-without-default-is-empty] implies(CfgGet(QKey(exp)) == nil && (!QHasDefault(exp) || QDefault(exp) == ""), result0 == "" && result1 == nil)
+//@ ensures [lookup-recorded] implies(result1 == nil, in(QKey(exp), prop.Configurations))
+
+//@ func (*configQuoteAwarePostProcessors).PostProcessProperties
+//@ property C16 C09
+//@ implements container.InstantiationAwareComponentPostProcessor
+//@ ghost at return: Failed = old(Failed) || result1 != nil
+//@ requires [wired] c.el != nil && c.el.OK && c.Configure != nil
+//@ requires [properties-wellformed] forall(k, int, implies(0 <= k && k < len(properties), properties[k] != nil && properties[k].Configurations != nil), properties[k])
+//@ requires [properties-distinct] forall(j, int, forall(k, int, implies(0 <= j && j < k && k < len(properties), properties[j] != properties[k])))
+//@ assigns anyfield(component_definition.Property, TagVal), allmaps(map[string]any), Failed
+//@ ensures [resolved-text-has-no-placeholder] implies(result1 == nil, forall(k, int, implies(0 <= k && k < len(properties) && RFirst(c.el.Pattern, properties[k].TagStr) != "", RFirst(c.el.Pattern, properties[k].TagVal) == ""), properties[k]))
+//@ ensures [tags-without-placeholder-untouched] forall(k, int, implies(0 <= k && k < len(properties) && RFirst(c.el.Pattern, properties[k].TagStr) == "", properties[k].TagVal == old(properties[k].TagVal)), properties[k])
+//@ loop 1 invariant [bounds] 0 <= _done && _done <= len(properties)
+//@ loop 1 invariant [resolved-so-far] forall(k, int, implies(0 <= k && k < _done && RFirst(c.el.Pattern, properties[k].TagStr) != "", RFirst(c.el.Pattern, properties[k].TagVal) == ""), properties[k])
+//@ loop 1 invariant [untouched-so-far] forall(k, int, implies(0 <= k && k < len(properties) && (k >= _done || RFirst(c.el.Pattern, properties[k].TagStr) == ""), properties[k].TagVal == old(properties[k].TagVal)), properties[k])
